@@ -105,7 +105,7 @@ type Case struct {
 
 func setup() {
 	c := ev.C()
-	c.Rule = "rapid-drawn inputs for every chk helper: result lists of 0-12 OpResults over all five entry kinds plus election and session-parameter results with duplicate keys and nil details; wanted items biased 70% to absent (one field of a present result perturbed, a key of another kind, another network instance); every option combination; Get responses over 1-3 network instances with wants of all five kinds; client errors with 0-3 send/receive errors and statuses with/without details. Oracle: a direct field-by-field specification written without cmp decides 'present' under the documented ignore options and the helper's verdict on a capturing testing.TB must agree in both directions; HasResultsCache is checked differentially against HasResult (cache-pass implies plain-pass; equal whenever the lookup keys are unique); documented test-author errors (nil details with IgnoreOperationID, missing network instance) must be fatal. Non-trivial = the wanted item is absent, or is of kind IPv6/MPLS, or an option is set; distinct by FNV-64 of the case JSON."
+	c.Rule = "rapid-drawn inputs for every chk helper: result lists of 0-12 OpResults over all five entry kinds plus election and session-parameter results with duplicate keys and nil details; wanted items biased 70% to absent (one field of a present result perturbed, a key of another kind, another network instance); every option combination; Get responses over 1-3 network instances with wants of all five kinds; client errors with 0-3 send/receive errors and statuses with/without details. Oracle: a direct field-by-field specification written without cmp decides 'present' under the documented ignore options and the helper's verdict on a capturing testing.TB must agree in both directions; HasResultsCache is checked differentially against HasResult (cache-pass implies plain-pass; equal whenever the lookup keys are unique); documented test-author errors (nil details with IgnoreOperationID, missing network instance) must be fatal. Non-trivial = the wanted item is absent, or is of kind IPv6/MPLS, or an option is set; distinct by FNV-64 of the case JSON. Later additions: instance names extending one another with boundary-shift near misses; several spellings of one prefix in the pools."
 	c.Assumptions = []string{"HasRecvClientErrorWithStatus with AllowUnimplemented: whether details are compared for a non-UNIMPLEMENTED status is left open by the documentation; that region is not asserted"}
 }
 
